@@ -1596,3 +1596,43 @@ func (e *Engine) msgTypeSites(fn *ssa.Function, msgType *types.Var, c *types.Con
 	})
 	return out
 }
+
+// ruleStartExclusive (C11, C16): a replica is created only when no incarnation
+// of it is still alive on this host: inside the start critical section newNode
+// is reached only when the shard is not registered and the execution engine
+// no longer holds the (shard, replica) node - the previous incarnation may
+// still be saving / recovering a snapshot, and two incarnations would drive
+// the same user state machine directory and log concurrently.
+func ruleStartExclusive(e *Engine, r *Report) {
+	rule := "GD-start-exclusive"
+	nn := r.need("dragonboat.newNode")
+	loaded := r.need("(*dragonboat.engine).nodeLoaded")
+	if nn == nil || loaded == nil {
+		return
+	}
+	n := 0
+	for _, s := range e.CallerSites(nn) {
+		if !e.IsLive(outermostFn(s.Parent())) {
+			continue
+		}
+		n++
+		in := s.(ssa.Instruction)
+		isRegistered := func(v ssa.Value) bool {
+			// the comma-ok of shards.Load(shardID)
+			ex, ok := stripConv(v).(*ssa.Extract)
+			if !ok || ex.Index != 1 {
+				return false
+			}
+			c, ok := ex.Tuple.(*ssa.Call)
+			if !ok {
+				return false
+			}
+			sc := c.Call.StaticCallee()
+			return sc != nil && sc.Name() == "Load"
+		}
+		r.guard(rule, "newNode in "+fname(s.Parent()), in,
+			reqBool("the shard is not registered on this host (shards.Load not ok)", isRegistered, false),
+			reqBool("the engine no longer holds the node (nodeLoaded is false)", e.callV(loaded), false))
+	}
+	r.floor(rule, n, 1)
+}
